@@ -36,6 +36,7 @@ RULE += " Round 9: Kilosort's batch-ordered spike_times_reordered.npy in the sou
 RULE += ' Round 10: session files named temp_wheel_session.dat / temp_wh2.dat in the source; a forced re-export after the geometry and cluster files were replaced by same-size files dated 2001; templates with an exactly silent channel.'
 RULE += ' Round 12: sources giving spikes in seconds only (rounding-sensitive sample numbers); the channel map stored as channels.rawInd.npy; spikes with amplitude zero or below.'
 RULE += " Round 13: interleaved shanks; an optional channel_labels.npy in the source; the loaded export's template accessors (both forms agree unless params.py carries a display factor)."
+RULE += ' Round 14: an all-NaN template that no spike refers to in the source; pre-existing source files compared with their content before load_model.'
 EXHAUSTIVE = {'quick': False, 'thorough': False}
 FLOORS = {'quick': {'evaluations': 600, 'distinct_nontrivial': 300},
           'thorough': {'evaluations': 9000, 'distinct_nontrivial': 5000}}
@@ -228,7 +229,18 @@ def _run(case, ctx, d, which):
     else:
         spec, opts, label, factor = build(case)
         src = os.path.join(d, 'src')
+        t_nan_ = None
+        if case['seed'][2] % 8 == 6 and spec.templates is not None and spec.templates.dtype.kind == 'f':
+            # (round 14) a template that no spike refers to is NaN everywhere in the source (a template the sorter dropped): it
+            # is an empty template, read as zeros - and the source file keeps its NaN (snapshot comparison below)
+            unused_ = sorted(set(range(spec.n_templates)) - set(np.asarray(spec.spike_templates).astype(np.int64).tolist()))
+            if unused_:
+                t_nan_ = unused_[0]
+                spec.templates[t_nan_] = np.nan
         spec.write(src)
+        if t_nan_ is not None:
+            spec.templates[t_nan_] = 0
+            spec.notes['nan_template_unused'] = t_nan_
         if spec.notes.get('hybrid_times') is not None:
             os.remove(os.path.join(src, 'spike_times.npy'))
             np.save(os.path.join(src, 'spikes.times.npy'), spec.notes['hybrid_times'])
@@ -265,6 +277,7 @@ def _run(case, ctx, d, which):
                     'label_%s' % bool(label), 'feat_%s' % opts.get('features')))
     ctx.sample(desc, every=17)
     f0 = {'curated': bool(curated), 'source': case.get('source'), 'spikeless': opts.get('spikeless', 'none')}
+    before_load = snapshot(src)          # (round 14) the source is compared from before it is loaded, not only from before convert()
     r = call(load_model, os.path.join(src, 'params.py'))
     if not r.ok:
         ctx.violation('raised', desc, 'load_model(source) raised %r' % r.exc, dict(f0, exc=r.exc_name, stage='load'), tb=r.tb)
@@ -299,6 +312,7 @@ def _run(case, ctx, d, which):
                                   dict(f0, spelling='plain' if tgt == src else 'alias'))
                     return
         before = snapshot(src)
+        before.update(before_load)       # files that were there before the load are compared with what they held then; files the load itself creates, with what it wrote
         if mon.fs:
             mon.fs.watch(src)
         if case['seed'][2] % 2:
